@@ -47,6 +47,68 @@ def main(tier):
                 if any(ev["e"] == "order" for ev in rec["out"]): with_orders += 1
         log("batch %d: %d programs; so far %s" % (k0 // CH, len(progs), dict(J.stats)))
         c.sample({"source": M.ts_source(progs[0], asyncmode=True)[:700], "responses": progs[0]["resp"][:4], "expected": M.expected_events(exp[progs[0]["id"]])})
+    # ---- transparency twins: SYNCHRONOUS code (constructors, methods, call chains, callbacks) whose callee blocks on order():
+    # the run with real orders (answered at once / through host promises settled later / with spurious steps) must equal the run
+    # in which `order` is an ordinary function returning the answer - the very statement of the property
+    TW = {
+     "fn_ctor": ('function load(k: number): any { return order({ v: k }); }\nfunction Conn(this: any, k: number) { this.tag = "c" + k; this.p = load(k); this.tag += "!"; }\n'
+                 'async function make(k: number) { const c = new (Conn as any)(k); return c.tag + ":" + (await c.p); }\nLOG((await make(1)) + "|" + (await make(2)));', [1, 2]),
+     "class_ctor_bare_return": ('function load(k: number): any { return order({ v: k }); }\nclass Conn { p: any; extra: string = "none"; constructor(k: number) { this.p = load(k); if (k > 0) return; this.extra = "zero"; } }\n'
+                 'async function make(k: number) { const c = new Conn(k); return c.extra + ":" + (await c.p); }\nLOG((await make(0)) + "|" + (await make(5)));', [0, 5]),
+     "class_ctor": ('function load(k: number): any { return order({ v: k }); }\nclass Conn { p: any; tag: string; constructor(k: number) { this.tag = "t" + k; this.p = load(k); this.tag += "!"; } }\n'
+                 'async function make(k: number) { const c = new Conn(k); return c.tag + ":" + (await c.p); }\nLOG((await make(7)) + "|" + (await make(8)));', [7, 8]),
+     "derived_ctor": ('class B { p: any; constructor(k: number) { this.p = order({ v: k }); } }\nclass D extends B { q: number; constructor(k: number) { super(k); this.q = k * 2; } }\nconst d = new D(4); LOG([await d.p, d.q, d instanceof D]);', [4]),
+     "call_chain": ('function c3(k: number): any { const local = [k, k + 1]; const r = order({ v: k }); return [r, local]; }\nfunction c2(k: number): any { const mine = "m" + k; const [r, l] = c3(k); return [r, l, mine]; }\n'
+                 'function c1(k: number): any { let acc = 0; for (let i = 0; i < 3; i++) acc += i; const x = c2(k); return [...x, acc]; }\nconst [r, l, m, a] = c1(9); LOG([await r, l, m, a]);', [9]),
+     "method_receiver": ('const box = { n: 3, get(k: number): any { const before = this.n; const r = order({ v: k }); return [r, before, this.n]; } };\nconst [r, b, n] = box.get(6); LOG([await r, b, n]);', [6]),
+     "array_callback": ('const rs = [1, 2, 3].map((k) => order({ v: k * 10 }));\nLOG([await rs[0], await rs[1], await rs[2], rs.length]);', [10, 20, 30]),
+     "try_finally_around": ('function risky(k: number): any { try { return order({ v: k }); } finally { LOG("fin" + k); } }\nconst r = risky(2); LOG(await r); LOG("after");', [2]),
+     "generator_body": ('function* g(): any { const a = yield order({ v: 1 }); const b = yield order({ v: 2 }); return [a, b]; }\nconst it = g(); const p1 = it.next().value; const p2 = it.next(await p1).value; LOG(it.next(await p2).value);', [1, 2]),
+     "default_param_and_spread": ('function f(a: any = order({ v: 5 }), ...rest: any[]): any { return [a, rest.length]; }\nconst [a, n] = f(); LOG([await a, n]); const xs = [...[1, 2], order({ v: 6 })]; LOG([xs.length, await xs[2]]);', [5, 6]),
+    }
+    twjobs = []; twmeta = []
+    for tag, (body, answers) in TW.items():
+        real = 'import { LOG, ERR } from "verif:host";\nimport { order } from "tsrun:host";\ntry {\n' + body + '\n} catch (e) { ERR(e); }\n'
+        twin = 'import { LOG, ERR } from "verif:host";\nconst order = (p: any): any => p.v;\ntry {\n' + body + '\n} catch (e) { ERR(e); }\n'
+        resp = [{"k": "val", "v": a} for a in answers]
+        twjobs.append({"id": len(twjobs), "source": twin, "resp": [], "mode": "immediate", "path": "/p/main.ts", "max_steps": 200000}); twmeta.append((tag, "twin"))
+        for mode, gc in (("immediate", None), ("deferred", None), ("spurious", None), ("deferred", 1)):
+            j = {"id": len(twjobs), "source": real, "resp": resp, "mode": mode, "path": "/p/main.ts", "max_steps": 200000}
+            if gc: j["gc"] = gc
+            twjobs.append(j); twmeta.append((tag, mode + ("/gc1" if gc else "")))
+    twgot = M.run_jobs(exe, "prog", twjobs)
+    twin_of = {}
+    ntw = 0
+    c07f = vlib.load_known("C07")
+    for j, (tag, how) in zip(twjobs, twmeta):
+        ev = [e for e in M.impl_events(twgot[j["id"]]) if not e.startswith("O|")]
+        if how == "twin": twin_of[tag] = ev; continue
+        ntw += 1
+        if ev == twin_of[tag] and not twgot[j["id"]].get("stale"): continue
+        feat = {"kind": "transparency-twin", "template": tag, "schedule": how.split("/")[0]}
+        hit = next((f for f in c07f if vlib.key_matches(f["key"], feat)), None)
+        if hit: c.known_hit.setdefault(hit["id"], {"finding": hit, "count": 0})["count"] += 1; continue
+        c.report(feat, {"source": j["source"], "schedule": how, "with_orders": ev, "without_suspension": twin_of[tag], "stale": twgot[j["id"]].get("stale")},
+                 "suspension is not transparent for [%s] under schedule %s: with order() as a plain function %s, with real orders %s\n%s" % (tag, how, twin_of[tag], ev, j["source"]))
+    log("transparency twins: %d templates x 4 schedules compared with the run that never suspends" % len(TW))
+    c.cov["transparency_twin_runs"] = ntw
+    # ---- values through combinators (Orders.tla): what `await Promise.all / race` yields must be the inputs' values in input
+    # order whatever the host's timing: ONE script each, ALL host histories (plain answers, promises settled before / after the call)
+    import c08
+    focus = [[{"o": "ord", "v": 1}, {"o": "ord", "v": 2}, {"o": "comb", "k": "all"}, {"o": "await", "v": 3}],
+             [{"o": "ord", "v": 1}, {"o": "ord", "v": 2}, {"o": "comb", "k": "race"}, {"o": "tawait", "v": 3}]]
+    os.makedirs(os.path.join(vlib.BUILD, "ord"), exist_ok=True)
+    nbeh = 0
+    for i, scr in enumerate(focus):
+        sf = os.path.join(vlib.BUILD, "ord", "c07_focus_%d.ndjson" % i)
+        open(sf, "w").write(json.dumps(scr) + "\n")
+        pth = vlib.write_cfg("c07_ordF%d.cfg" % i, c08.cfg(2, 5, 5, 1, 0, True, False, ["EmitBehaviour"], scriptfile=sf))
+        res, mism, summ = c08.stream_replay(exe, "c07_ordF%d" % i, pth, 2, 10, 1500)
+        c.add_tlc(res); nbeh += summ["behaviours"]
+        for m in mism:
+            c.report({"kind": "divergence", "where": "combinator-values"}, m, "resuming changes what a combinator yields: %s\n%s host history %s" % (m["why"], m["source"], json.dumps(m["hist"])))
+        log("combinator values, script %d: %d host histories replayed, %d divergences" % (i, summ["behaviours"], summ["mismatches"]))
+    c.cov["combinator_value_histories"] = nbeh
     if J.stats["judged"] and J.stats["spec_disagrees_with_reference_engine"] > 0.03 * (J.stats["judged"] + J.stats["spec_disagrees_with_reference_engine"]):
         vlib.tool_error("MiniJS.tla disagrees with the reference engine on more than 3% of the async programs")
     c.cov["traces_validated_against_impl"] = J.stats["agree"]
